@@ -149,6 +149,24 @@ func verifyManifest(inz *zip.Reader, manifest []byte) error {
 			return err
 		}
 	}
+	// Conversely every member must be covered: an entry the manifest does not
+	// list is content that the signature says nothing about, but that a class
+	// loader or installer would still pick up.
+	for _, fh := range inz.File {
+		name := fh.Name
+		if strings.HasSuffix(name, "/") || parsed.Files[name] != nil {
+			continue
+		}
+		if path.Dir(name) == "META-INF" {
+			base := path.Base(name)
+			switch ext := path.Ext(base); {
+			case base == "MANIFEST.MF", strings.HasPrefix(base, "SIG-"),
+				ext == ".SF", ext == ".RSA", ext == ".DSA", ext == ".EC":
+				continue
+			}
+		}
+		return fmt.Errorf("file %s is in JAR but not in manifest", name)
+	}
 	return nil
 }
 
